@@ -4,6 +4,14 @@ sub-agents' scratch worktrees into /verif/seeded/<property>-m<k>/ and write meta
 import json, os, re, shutil, sys
 root, props = sys.argv[1], sys.argv[2:]
 V = os.path.dirname(os.path.dirname(os.path.abspath(__file__)))
+def base_commit(wt):
+    import subprocess
+    try:
+        return subprocess.check_output(["git", "-C", wt, "rev-parse", "--short", "HEAD"], text=True).strip()
+    except Exception:
+        return "54fe2de4"
+
+
 def lines(path):
     if not os.path.exists(path):
         return []
@@ -43,7 +51,7 @@ for p in props:
         res = tries.get(m, {})
         caught = sorted(k for k, r in res.items() if r.get("exit") == 1)
         meta = dict(property=p, id=f"{p}-{m}", title=title, needs_to_manifest=needs,
-                    base_commit="54fe2de4" if p in ("C01", "C02", "C03", "C06") else None,
+                    base_commit=base_commit(os.path.join(root, p)),
                     confirmed=dict(demo_passes_on_unchanged=all(ok for _, ok in v["demo_on_unchanged"]),
                                    demo_fails_with_change=not all(ok for _, ok in v["demo_with_change"]),
                                    compiles=v["compiles"], existing_suite_unexpected_failures=v["suite_unexpected_failures"],
